@@ -233,7 +233,9 @@ def brle_to_dense(brle_data, vals=None):
         if vals.shape != (2,):
             raise ValueError(f"vals.shape must be (2,), got {vals.shape}")
     ft = np.repeat(vals[np.newaxis, :], (len(brle_data) + 1) // 2, axis=0).flatten()
-    return np.repeat(ft[: len(brle_data)], brle_data).flatten()
+    return np.repeat(
+        ft[: len(brle_data)], np.asarray(brle_data, dtype=np.int64)
+    ).flatten()
 
 
 def rle_to_dense(rle_data, dtype=np.int64):
@@ -283,7 +285,8 @@ def split_long_rle_lengths(values, lengths, dtype=np.int64):
     values, lengths associated with the appropriate splits. `lengths` will be
     of type `dtype`, while `values` will be the same as the value passed in.
     """
-    max_length = np.iinfo(dtype).max
+    # lengths are int64: a wider maximum (uint64) can not be exceeded
+    max_length = min(np.iinfo(dtype).max, np.iinfo(np.int64).max)
     lengths = np.asarray(lengths)
     repeats = lengths // max_length
     if np.any(repeats):
